@@ -501,15 +501,14 @@ Ref World::apply_names_types(const Op& op)
       if (code == OP_get_product_wh or code == OP_get_sum_wh or (products.empty() and sums.empty())) {
          const size_t n = size_t(uint64_t(op.a[0]) % 9);
          // the warehouse lives in the arena and dies right after the call: its contents must have been copied
-         auto wh = SUT(new impl::Warehouse<ipr::Type>());
+         ArenaWarehouse wh;
          for (size_t i = 0; i < n; ++i) {
             const ipr::Type& t = T(op.a[1] + int64_t(i) * (1 + int64_t(uint64_t(op.a[2]) % 5)));
             SUT(wh->push_back(t));
             elems.push_back(nref(t));
          }
-         try { result = is_product ? static_cast<const ipr::Type*>(&SUT(lex->get_product(*wh))) : static_cast<const ipr::Type*>(&SUT(lex->get_sum(*wh))); }
-         catch (...) { SUT_DO(delete wh); throw; }
-         SUT_DO(delete wh);
+         result = is_product ? static_cast<const ipr::Type*>(&SUT(lex->get_product(*wh))) : static_cast<const ipr::Type*>(&SUT(lex->get_sum(*wh)));
+         wh.release();
       } else {
          // a sequence owned by the Lexicon: the elements of an existing product or sum
          const ipr::Sequence<ipr::Type>* seq;
